@@ -516,4 +516,9 @@ mod tests {
 
         proof.validate(&eh).unwrap_err();
     }
+
+    #[cfg(lumina_verif)]
+    mod verif_native {
+        include!(concat!(env!("LUMINA_VERIF_DIR"), "/native/types/befp.rs"));
+    }
 }
